@@ -4,7 +4,9 @@
 (* Eff(s, i) is the SET of allowed outcomes [s, out]; a judge keeps the set of monitor states    *)
 (* that are consistent with what was observed.                                                  *)
 (*                                                                                              *)
-(* state s = [cm : communication state, link : "down"|"up", en : BOOLEAN]                        *)
+(* state s = [cm : communication state, link : "down"|"up", en : BOOLEAN, deny : BOOLEAN]        *)
+(*           deny: the application answers establish-communication requests with COMMACK 1        *)
+(*           (the documented override on_commack_requested)                                      *)
 (* out     = [frames : sequence of required data frames, opt : set of optional frames,           *)
 (*            comm : number of handler_communicating events, cb : callback invocations allowed,  *)
 (*            dt : required elapsed time of a timer step ("T3" | "D" | "-")]                      *)
@@ -16,6 +18,7 @@ States == {"DISABLED", "NOT_COMMUNICATING", "WAIT_CRA", "WAIT_DELAY", "COMMUNICA
 F(s, f, w, sys, ack) == [s |-> s, f |-> f, w |-> w, sys |-> sys, ack |-> ack]
 S1F13out == F(1, 13, TRUE, "fresh", 9)
 S1F14ok == F(1, 14, FALSE, "echo", 0)
+S1F14deny == F(1, 14, FALSE, "echo", 1)
 
 O(frames, opt, comm, cb, dt) == [frames |-> frames, opt |-> opt, comm |-> comm, cb |-> cb, dt |-> dt]
 Quiet == O(<<>>, {}, 0, 0, "-")
@@ -63,7 +66,10 @@ Eff(s, i) ==
                 One([s EXCEPT !.cm = "WAIT_CRA"],
                     IF s.link = "up" THEN O(<<S1F13out>>, {}, 0, 0, "D") ELSE O(<<>>, {}, 0, 0, "D"))
     [] i.k = "S1F13" ->
-         CASE s.cm = "WAIT_CRA" -> One([s EXCEPT !.cm = "COMMUNICATING"], O(<<S1F14ok>>, {}, 1, 0, "-"))
+         CASE s.cm = "WAIT_CRA" /\ s.deny -> One(s, O(<<S1F14deny>>, {}, 0, 0, "-"))     \* refused by us: nothing is established
+           [] s.cm = "WAIT_DELAY" /\ s.deny -> One(s, O(<<S1F14deny>>, {}, 0, 0, "-")) \cup One(s, Quiet)
+           [] s.cm = "COMMUNICATING" /\ s.deny -> One(s, O(<<S1F14deny>>, {}, 0, 1, "-"))
+           [] s.cm = "WAIT_CRA" -> One([s EXCEPT !.cm = "COMMUNICATING"], O(<<S1F14ok>>, {}, 1, 0, "-"))
            [] s.cm = "WAIT_DELAY" ->
                 \* E30 lets the equipment accept a host-initiated request here; ignoring it is not
                 \* excluded by the property either
